@@ -146,6 +146,10 @@ pub struct LineObs {
     /// Depth of the execution stack after the line (must be 0).
     pub exec_stack: usize,
     pub num_sources_after: usize,
+    /// The line was cut off by the budget on file reads without a single macro expansion: an
+    /// `\input` recursion that the nesting limit should have stopped.
+    #[serde(default)]
+    pub runaway_input: bool,
 }
 
 /// Remove text that legitimately depends on the hash universe of the process.
@@ -404,6 +408,7 @@ impl VmProc {
             env.term.borrow_mut().prompts.clear();
             env.fs.borrow().writes.set(0);
             env.fs.borrow().line_reads.set(0);
+            env.fs.borrow().read_budget_tripped.set(false);
             env.recovered_errors.set(0);
         }
         let cursor_before = vm.state.env.term.borrow().cursor;
@@ -434,6 +439,8 @@ impl VmProc {
             font_events: vm.state.env.font_events.clone(),
             exec_stack: vm.generate_stack_trace().len(),
             num_sources_after: vm.num_current_sources(),
+            runaway_input: vm.state.env.fs.borrow().read_budget_tripped.get()
+                && vm.state.env.expansions.get() == 0,
         }
     }
 }
